@@ -763,6 +763,7 @@ func (g *EscapeGraph) StoreField(addrNode, valNode *Node, field string, tp types
 
 // Merge computes the union of this graph with another, used at e.g. the join-points of a dataflow graph. Modifies g in-place.
 func (g *EscapeGraph) Merge(h *EscapeGraph) {
+	verifPre := verifPreMerge(g)
 	for _, e := range h.Edges(nil, nil, EdgeAll) {
 		g.AddEdge(e.src, e.dest, e.mask)
 	}
@@ -770,6 +771,7 @@ func (g *EscapeGraph) Merge(h *EscapeGraph) {
 		g.AddNode(node)
 		g.MergeNodeStatus(node, s, h.rationales[node])
 	}
+	verifPostMerge(verifPre, h, g)
 }
 
 // AsImplInterfaceType returns the corresponding interface type, if the input is is an abstract
